@@ -235,6 +235,26 @@ theorem consumed_enough (n : Nat) (bs : List (List α)) (h : n ≤ bs.flatten.le
         rw [e, List.take_succ_cons, List.flatten_cons, List.length_append]
         omega
 
+/-- **consumption bound, against any witness**: whenever the first `i` blocks already hold `n` elements, no
+more than `i` blocks are consumed — in particular nothing beyond the block that supplies the n-th element -/
+theorem consumed_le_of_enough (n i : Nat) (bs : List (List α)) (h : n ≤ (bs.take i).flatten.length) :
+    consumed n bs ≤ i := by
+  induction bs generalizing n i with
+  | nil => cases n <;> simp [consumed]
+  | cons b bs ih =>
+    cases n with
+    | zero => simp [consumed]
+    | succ n =>
+      cases i with
+      | zero => simp at h
+      | succ i =>
+        simp only [List.take_succ_cons, List.flatten_cons, List.length_append] at h
+        simp only [consumed]
+        split
+        · omega
+        · have := ih (n + 1 - b.length) i (by omega)
+          omega
+
 /-! ### empty blocks (lines that contribute no row) are invisible -/
 
 /-- the blocks that hold at least one row -/
